@@ -173,8 +173,11 @@ def r_order(ctx, model):
             bad.append(f"{s} <- {out.cols.get(tgt) if tgt else 'missing'} (want X{p})")
     ctx.check(not bad and sorted(order) == sorted(SYMS21), "write-back pairs solution row p with symbol p (21 symbols)", w,
               expected="column of symbol p = solution row p", found="; ".join(bad[:6]) or "as required",
-              explanation="the solved components are written back under the wrong names (symbol order differs between the "
-                          "system matrix and the write-back)", key="order.writeback")
+              explanation=("the solved components are written back through a labelled column whose row labels (0..n-1, made up by a constructor) are "
+                           "aligned with the row labels of the caller's table: a table with any other index receives missing or permuted values")
+              if any("ALIGNED_ON_FRESH_ROW_LABELS" in b for b in bad) else
+              "the solved components are written back under the wrong names (symbol order differs between the "
+              "system matrix and the write-back)", key="order.writeback")
     keep = [c for c in ("V", "extra") if out.cols.get(c) != sp.Symbol(f"COL_{c}", real=True)]
     ctx.check(not keep and list(out.cols)[:len(cols)] == cols, "non-modulus columns pass through; existing names are reused", w,
               expected="V, extra unchanged; C12 reused (no duplicate c12)", found=f"changed {keep}; columns {list(out.cols)[:8]}",
